@@ -464,7 +464,10 @@ void loss_family(vh::rng_t& rng, const std::string& id, int& tie_budget)
                 std::vector<vec> ts, os;
                 for (int s = 0; s < n; ++s)
                 {
-                    ts.push_back(s % 3 == 0 ? t : draw_target(rng, kind, k, static_cast<int>(rng.range(0, 11))));
+                    // single-label losses with >= 2 outputs: every other sample has NO or SEVERAL positive labels (the decision rule is
+                    // `target at the arg-max of the outputs is positive`, whatever the number of positive labels)
+                    if (kind == lkind::sclass && k > 1 && s % 2 == 1) ts.push_back(draw_target(rng, lkind::mclass, k, static_cast<int>(rng.range(0, 11))));
+                    else ts.push_back(s % 3 == 0 ? t : draw_target(rng, kind, k, static_cast<int>(rng.range(0, 11))));
                     os.push_back(draw_output(rng, ts.back(), kind, static_cast<int>(rng.range(0, 7))));
                 }
                 tensor4d_t T(n, k, 1, 1), O(n, k, 1, 1), G(n, k, 1, 1);
